@@ -9,7 +9,7 @@ use ruma_state_res::lexicographical_topological_sort;
 use serde::{Deserialize, Serialize};
 use vf_engine::{pick_idx, CaseCtx, Check};
 
-use crate::room::{self, history, ref_resolve_traced, ruma_resolve, History, Room, SMap};
+use crate::room::{self, history, ref_resolve_traced, ref_resolve_variant, ruma_resolve, History, Room, SMap};
 
 pub fn instance_sets(r: &Room, pick: &[u16]) -> Option<(Vec<String>, Vec<SMap>, Vec<BTreeSet<String>>)> {
     let mut nodes: Vec<String> = vec![];
@@ -57,6 +57,12 @@ pub fn oracle(h: &History, cx: &mut CaseCtx) -> Result<(), String> {
             continue;
         }
         any_nt |= trace.conflicted > 0 && (trace.power_events > 0 || trace.auth_diff_not_in_conflicted);
+        if got != want && trace.no_pl_ancestor_in_mainline_phase && got == ref_resolve_variant(&r, &sets, true).0 {
+            let witness = serde_json::json!({"version": h.version, "merged_nodes": nodes, "differing_keys": want.keys().filter(|k| want.get(*k) != got.get(*k)).map(|k| format!("{}|{}", k.0, k.1)).collect::<Vec<_>>()});
+            if cx.known_finding("mainline_depth_conflation", witness) {
+                continue;
+            }
+        }
         if got != want {
             let diff: Vec<String> = want.keys().chain(got.keys()).collect::<BTreeSet<_>>().into_iter().filter(|k| want.get(*k) != got.get(*k)).map(|k| {
                 let d = |m: &SMap| m.get(k).map(|id| format!("{id} {} ts={} by {}", r.events[id].content, r.events[id].ts, r.events[id].sender)).unwrap_or_else(|| "absent".into());
